@@ -17,7 +17,7 @@ Here it is stated about the ENCODER model `Model.Encode.encode` (byte-exact agai
 * the index the encoder prints for a colour name `c` is `(mkColorCtx d).index c` = `Utils._get_color_index` under that
   context (`C12enc_index_eq`); it is right for the printed table (`RefOk`, `C12enc_index`): in range, `0` for `""` /
   `"black"` (`C12enc_default_zero`), the 1-based position of `c`'s own row whenever `c` was collected
-  (`C12enc_index_resolves`), `0` when it was not (`C12enc_index_in_range`), independent of the order in which the
+  (`C12enc_index_resolves`) — ONE numbering for the printed table and for every index (`C12enc_same_numbering`), `0` when it was not (`C12enc_index_in_range`), independent of the order in which the
   components mention colours (`C12enc_order_independent`);
 * every `\cf` / `\chcbpat` / `\brdrcf` / `\f` the encoder emits comes from `resolveText` / `resolveBorder`
   (`C12enc_text_refs`, `C12enc_border_refs`); for a table cell (`cellOf` = `encodeCell`: data rows, column headers,
@@ -108,6 +108,28 @@ theorem C12enc_index (d : Model.Encode.Doc) (rows : List ColorRow) (h : tableRow
     obtain ⟨i, _, _, h3, h4⟩ := Props.C12.C12_index_resolves (usedColors d) rows h c hc hs
     rw [he, h3]
     simpa using h4
+
+/-- **One numbering.**  The colour table an accepted document prints and the index function every emitter of the
+encoder uses are built from the SAME list, the colours collected from the whole document: there is ONE `rows` such that
+the head carries the text of the dense table `rows` and, for every colour name, the index the encoder prints is right
+for `rows` (`RefOk`; for the references of every rendered cell and line: `Ref d rows …` in the theorems below, with
+this `rows`).  No page option enters: `Model.Encode.Page` has no field that selects another table — the real
+`RTFPage(use_color=…)` is accepted by the constructor and read by nobody, and the correspondence (C12's documents with
+every constructor option drawn, the whole-encoder class with the options outside the model's input drawn) checks that
+it stays so.  Why the two must agree: `Props.C12.C12_mixed_numbering_wrong`. -/
+theorem C12enc_same_numbering (measure : Measure) (d : Model.Encode.Doc) (g : DocG) (h : encode measure d = .ok g) :
+    ∃ rows, tableRows colorTable (usedColors d) = .ok rows ∧
+      generateColorTable colorTable (some (mkColorCtx d).used) = .ok (tableText rows) ∧
+      (∃ pre post, g.head = pre ++ textNodes (tableText rows).toList ++ post) ∧
+      (rows.map (·.name)).Perm ((usedColors d).filter significant) ∧
+      ∀ c, RefOk d rows c ((mkColorCtx d).index c) := by
+  obtain ⟨rows, fontTbl, hdr, ftr, ps, hrows, hgen, _, hhead, _, hperm, _⟩ := C12enc_table measure d g h
+  refine ⟨rows, hrows, hgen,
+    ⟨[cw0 "ansi", Node.nl, cwi "deff" 0, cwi "deflang" 1033, Node.nl] ++ textNodes fontTbl.toList ++ [Node.nl],
+     [Node.nl, Node.nl, Node.nl] ++ hdr ++ [Node.nl] ++ ftr ++ [Node.nl] ++ ps ++ [Node.nl], ?_⟩,
+    hperm, fun c => C12enc_index d rows hrows c⟩
+  rw [hhead]
+  simp only [List.append_assoc]
 
 /-- a collected non-default colour gets the 1-based position of its own row in the printed table -/
 theorem C12enc_index_resolves (d : Model.Encode.Doc) (rows : List ColorRow)
